@@ -27,6 +27,8 @@ func init() {
 			"errors of the cache store flow only into the error reporter and the store is never called with the data lock held; both cache keys combine the entity hash with the selection hash taken before the input buffer is rewritten; " +
 			"every Cache-Control field the decision reads is filled by the arm of the directive switch for the RFC 9111 directive of that name. It does not decide transparency over request histories nor the Cache-Control lexer over all strings.",
 		Mutants: []Mutant{
+			{Name: "undefined variables no longer part of the selection hash (the repaired defect F15)", File: loaderGo, Rule: "C16-R5", Key: "prepareEntityFetch/hash<-undefined-variables",
+				Old: "\t\t\trendered[responseCacheFooterStart:],\n\t\t\tundefinedVariables,\n\t\t)\n\t\tresponseCacheItemHash :=", New: "\t\t\trendered[responseCacheFooterStart:],\n\t\t\tnil,\n\t\t)\n\t\tresponseCacheItemHash :="},
 			{Name: "non-positive default TTL replaced by one minute (seeded change C16-13)", File: "v2/pkg/engine/resolve/context.go", Rule: "C16-R1", Key: "SetResponseCache/default-ttl-is-the-configured-value",
 				Old: "\tc.responseCache = &responseCache{store: cache, defaultTTL: defaultTTL, onError: onError}", New: "\tif defaultTTL <= 0 {\n\t\tdefaultTTL = time.Minute\n\t}\n\tc.responseCache = &responseCache{store: cache, defaultTTL: defaultTTL, onError: onError}"},
 			{Name: "private no longer refuses storing", File: ttlGo, Rule: "C16-R1", Key: "private",
@@ -34,7 +36,7 @@ func init() {
 			{Name: "public no longer required", File: ttlGo, Rule: "C16-R1", Key: "public",
 				Old: "\tif !cc.Public {\n\t\treturn 0, false\n\t}\n", New: ""},
 			{Name: "max-age preferred over s-maxage", File: ttlGo, Rule: "C16-R1", Key: "maxage",
-				Old: "\tcase cc.SMaxAge != nil:\n\t\tif *cc.SMaxAge <= 0 {\n\t\t\treturn 0, false\n\t\t}\n\t\treturn cc.SMaxAge.AsDuration(), true\n\tcase cc.MaxAge != nil:\n\t\tif *cc.MaxAge <= 0 {\n\t\t\treturn 0, false\n\t\t}\n\t\treturn cc.MaxAge.AsDuration(), true\n",
+				Old: "\tcase cc.SMaxAge != nil:\n\t\tif *cc.SMaxAge <= 0 {\n\t\t\treturn 0, false\n\t\t}\n\t\treturn cc.SMaxAge.AsDuration(), true\n\n\tcase cc.MaxAge != nil:\n\t\tif *cc.MaxAge <= 0 {\n\t\t\treturn 0, false\n\t\t}\n\t\treturn cc.MaxAge.AsDuration(), true\n",
 				New: "\tcase cc.MaxAge != nil:\n\t\tif *cc.MaxAge <= 0 {\n\t\t\treturn 0, false\n\t\t}\n\t\treturn cc.MaxAge.AsDuration(), true\n\tcase cc.SMaxAge != nil:\n\t\tif *cc.SMaxAge <= 0 {\n\t\t\treturn 0, false\n\t\t}\n\t\treturn cc.SMaxAge.AsDuration(), true\n"},
 			{Name: "responses with GraphQL errors are collected", File: respCacheGo, Rule: "C16-R2", Key: "no-graphql-errors",
 				Old: "\tif errs := response.Get(errorsPath...); astjson.ValueIsNonNull(errs) && len(errs.GetArray()) > 0 {\n\t\treturn nil\n\t}\n", New: "\t_ = errorsPath\n"},
@@ -370,7 +372,7 @@ func runC16(r *fw.Run) {
 	r.Expect("C16-R4", "calls of responseCacheCollect", nCollect, 1)
 
 	// ---- R5 key shape ---------------------------------------------------------------------------
-	r.Rule("C16-R5", "every caching.Key call combines the entity hash with responseCacheSelectionHash(header, footer) computed before SetInputUndefinedVariables rewrites the buffer; caching.Key writes both components")
+	r.Rule("C16-R5", "every caching.Key call combines the entity hash with responseCacheSelectionHash(header, footer, undefined variables) computed before SetInputUndefinedVariables rewrites the buffer; caching.Key writes both components")
 	nKey := 0
 	for _, fi := range p.Funcs("resolve") {
 		info := fi.Info()
@@ -425,7 +427,24 @@ func runC16(r *fw.Run) {
 			if fw.CallIs(info, c, "resolve", "SetInputUndefinedVariables") {
 				st.Set("rewritten")
 			}
-			if in.Final() && fw.CallIs(info, c, "resolve", "responseCacheSelectionHash") && len(c.Args) == 2 {
+			if in.Final() && fw.CallIs(info, c, "resolve", "responseCacheSelectionHash") && len(c.Args) >= 2 {
+				// the request that is sent also depends on which variables the client left undefined (they are removed from
+				// the input afterwards, while an explicit null stays): the collector of the renders is part of the hash
+				var collector types.Object
+				fw.WalkAll(fi.Decl.Body, func(m ast.Node) bool {
+					if rc, ok := m.(*ast.CallExpr); ok && fw.CallIs(info, rc, "resolve", "InputTemplate.RenderAndCollectUndefinedVariables") && len(rc.Args) == 4 {
+						collector = fw.RootObj(info, rc.Args[3])
+					}
+					return true
+				})
+				uOK := false
+				for _, a := range c.Args[2:] {
+					if collector != nil && fw.RootObj(info, a) == collector {
+						uOK = true
+					}
+				}
+				r.Check(uOK, "C16-R5", fi.Name()+"/hash<-undefined-variables", p.Pos(c.Pos()), "the selection hash in "+fi.Name()+" covers the names of the variables the client left undefined",
+					"at the time the key is built an undefined variable and an explicit null both read `null` in the buffer; SetInputUndefinedVariables then removes the undefined ones from the request. Without the collector in the hash the requests {} and {\"n\":null} share cache entries although the subgraph is asked differently (argument default vs. explicit null) and may answer differently")
 				hOK, fOK := false, false
 				if se, ok := ast.Unparen(c.Args[0]).(*ast.SliceExpr); ok && se.High != nil && se.Low == nil {
 					if s, ok := offsets[fw.RootObj(info, se.High)]; ok && s.hdr && !s.ftr && !s.items {
